@@ -103,6 +103,29 @@ pub struct HLib {
     units: (u64, u64),
 }
 
+/// Shorted nets: give some labels one or two twins with other names at the same spot. Which name a
+/// shape ends up with is not specified (so C06 never generates this); that the outcome is the same
+/// on every run is (C20).
+pub fn add_conflicting_labels(src: &mut Src, m: &mut HLib) {
+    for st in m.structs.iter_mut() {
+        if st.labels.is_empty() || !src.bool() {
+            continue;
+        }
+        let n0 = st.labels.len();
+        for i in 0..n0 {
+            let twins = src.weighted(&[2, 2, 1]);
+            for t in 0..twins {
+                let mut l = st.labels[i].clone();
+                l.string = format!("{}_short{}", l.string, t);
+                st.labels.push(l);
+            }
+        }
+        let total = st.shapes.len() + st.labels.len() + st.refs.len();
+        st.order = (0..total).collect();
+        src.shuffle(&mut st.order);
+    }
+}
+
 // ---- generator ---------------------------------------------------------------------------------------
 const SLOT: i64 = 64; // each own shape of a struct lives in its own 40x40 window, windows 64 apart
 fn gen_shape(src: &mut Src, slot: usize, allow_nonmanhattan_path: bool) -> HShape {
@@ -291,9 +314,18 @@ pub fn gen_lib(src: &mut Src) -> HLib {
                     ]
                 }
                 HGeom::Box(xy) => vec![xy[0], ((xy[0].0 + xy[2].0) / 2, (xy[0].1 + xy[2].1) / 2), ((xy[0].0 + xy[1].0) / 2, (xy[0].1 + xy[1].1) / 2)],
-                HGeom::Path(pts, _) => {
+                HGeom::Path(pts, w) => {
                     let i = src.index(pts.len() - 1);
-                    vec![pts[i], ((pts[i].0 + pts[i + 1].0) / 2, (pts[i].1 + pts[i + 1].1) / 2), (pts[i].0, pts[i].1 + 30)]
+                    // diagonally behind the first / beyond the last point: inside the width-square around that
+                    // end but farther than half the width from the path (outside under flush and round ends alike)
+                    let h = (*w / 2).max(1);
+                    let (a, b) = (pts[0], pts[1]);
+                    let d0 = ((b.0 - a.0).signum(), (b.1 - a.1).signum());
+                    let behind = (a.0 - d0.0 * h + d0.1 * h, a.1 - d0.1 * h + d0.0 * h);
+                    let (y, z) = (pts[pts.len() - 2], pts[pts.len() - 1]);
+                    let d1 = ((z.0 - y.0).signum(), (z.1 - y.1).signum());
+                    let beyond = (z.0 + d1.0 * h - d1.1 * h, z.1 + d1.1 * h - d1.0 * h);
+                    vec![pts[i], ((pts[i].0 + pts[i + 1].0) / 2, (pts[i].1 + pts[i + 1].1) / 2), (pts[i].0, pts[i].1 + 30), behind, beyond]
                 }
             };
             let loc = cand[src.index(cand.len())];
